@@ -36,6 +36,7 @@ var (
 	paths    = []string{"/", "/foo", "/foo/bar", "/Foo", "/api/", "", "/z*"}
 	dsts     = []string{"http://10.0.0.1:8080/", "http://10.0.0.2:8080", "https://host-1:443/x", "tcp://10.0.0.3:5000",
 		"HTTP://UPPER:80/", "http://h/%7Efoo", "http://[::1]:80/", "http://10.0.0.1:8080"}
+	badHosts = []string{"[", "a[.com", "{a,b.com", "\\", "A[.com", "*.ok.com", "{x,y}.com", "ok.com"}
 	tagPool = []string{"a", "b", "c", "blue", "green", "a b"}
 	optPool = []string{"strip=/foo", "proto=https", "host=dst", "k", "a=b=c", "strip=/bar", "prepend=/p", "=v", "tlsskipverify=true"}
 	weights = []string{"0.1", "0.25", "0.5", "1", "0.3333", "2", "0", "-1", "0.05", "0.00001", "0.7", "0.3", "0.2", "0.9", "0.00005", "0.12345", "3"}
@@ -152,6 +153,12 @@ func (g *gen) addCmd() string {
 	}
 	if g.class == "directed" && g.r.Intn(12) == 0 {
 		a.path = g.pick([]string{"/[x", "/{a", "/ok"})
+	}
+	if g.class == "bad-hosts" && g.r.Intn(5) == 0 {
+		a.host = g.pick(badHosts)
+		if a.path == "" {
+			a.path = "/"
+		}
 	}
 	if g.class == "directed" && g.r.Intn(12) == 0 {
 		a.dst = g.pick([]string{"http://[::1", ":foo", "#", "?", "http://a/%zz", "x", "http://h/a%20b", "http://h/a#frag"})
@@ -416,6 +423,8 @@ func errKind(err error) int {
 		return 8
 	case s == "route: no target match":
 		return 9
+	case strings.HasPrefix(s, "route: invalid host."):
+		return 11
 	}
 	return 10
 }
@@ -463,9 +472,14 @@ func (f *facts) scan(text string) {
 			f.url(fs[4])
 		}
 		if len(fs) >= 4 && fs[0] == "route" && fs[1] == "add" {
-			_, p := hostpath(fs[3])
+			h, p := hostpath(fs[3])
 			if _, err := glob.Compile(p); err != nil {
 				f.globs[p] = true
+			}
+			// since /repo c9fb527 a host seen for the first time must compile too (lower-cased)
+			h = strings.ToLower(h)
+			if _, err := glob.Compile(h); err != nil {
+				f.globs[h] = true
 			}
 		}
 		for i := 2; i+1 < len(fs); i++ {
@@ -679,12 +693,23 @@ var directed = []string{
 	// hosts: order of String(), empty host, port, globs
 	"route add svc-a b.com/ http://10.0.0.1:8080/\nroute add svc-a a.com/ http://10.0.0.1:8080/\nroute add svc-a /x http://10.0.0.1:8080/\nroute add svc-a :80 tcp://10.0.0.3:5000\nroute add svc-a c.com/z http://10.0.0.1:8080/\nroute add svc-a c.com/a http://10.0.0.1:8080/",
 	"route add svc-a foo.com/[x http://10.0.0.1:8080/",
+	// host patterns that do not compile are rejected when the host is first added (c9fb527)
+	"route add svc-a [/ http://10.0.0.1:8080/",
+	"route add svc-a a[.com/ http://10.0.0.1:8080/",
+	"route add svc-a {a,b.com/ http://10.0.0.1:8080/",
+	"route add svc-a \\/ http://10.0.0.1:8080/",
+	"route add svc-a A[.com/x http://10.0.0.1:8080/",
+	"route add svc-a foo.com/ http://10.0.0.1:8080/\nroute add svc-b a[.com/ http://10.0.0.2:8080/",
+	"route add svc-a {a,b}.com/ http://10.0.0.1:8080/\nroute add svc-a *.Foo.com/ http://10.0.0.1:8080/",
+	"route add svc-a [/[x http://10.0.0.1:8080/",
+	"route add svc-a foo.com/ http://10.0.0.1:8080/\nroute del svc-a [/\nroute del svc-a a[.com/ http://10.0.0.1:8080/",
+	"route add svc-a [ http://10.0.0.1:8080/",
 	"route add svc-a foo.com/ http://10.0.0.1:8080/\nroute add svc-a foo.com/{a http://10.0.0.1:8080/",
 }
 
 func main() {
 	run := vh.Start("C05")
-	classes := []string{"mixed", "case-hosts", "lower-only", "dup-add", "weights", "tags-escape", "whitespace", "malformed", "directed"}
+	classes := []string{"mixed", "case-hosts", "lower-only", "dup-add", "weights", "tags-escape", "whitespace", "malformed", "directed", "bad-hosts"}
 	for _, s := range directed {
 		doScript(run, "directed-fixed", s)
 	}
